@@ -32,6 +32,7 @@
 #include "http.h"
 #include "sha256.h"
 #include "sock.h"
+#include "warnp.h"
 
 #include "allocwrap.h"
 #include "fakekernel.h"
@@ -55,6 +56,7 @@ vt_hexstr(const char * k, const char * s)
 	vt_hex(k, s, strlen(s));
 }
 
+static int cb_rc, cb_returned;	/* what the callback is told to return / has returned in this run */
 static int
 http_cb(void * cookie, struct http_response * res)
 {
@@ -91,8 +93,10 @@ http_cb(void * cookie, struct http_response * res)
 		}
 		free(res->body);
 	}
+	vt_int("rc", cb_rc);
 	common(); vt_end();
-	return (0);
+	cb_returned = cb_rc;
+	return (cb_rc);		/* (a callback that has released the body may well report an error of its own) */
 }
 
 static int
@@ -126,7 +130,8 @@ runk(void)
 
 	vt_begin("run_call"); vt_end();
 	rc = events_run();
-	vt_begin("run_ret"); vt_int("rc", rc); common(); vt_end();
+	vt_begin("run_ret"); vt_int("rc", rc); vt_int("cbrc", cb_returned); common(); vt_end();
+	cb_returned = 0;
 	if (kk != NULL && !noop_ran)
 		events_timer_cancel(kk);
 	noop_ran = 0;
@@ -196,6 +201,9 @@ run_child(void)
 		} else if (strncmp(l, "connect ", 8) == 0) {
 			strncpy(conn, l + 8, sizeof(conn) - 1);
 		} else if (sscanf(l, "txcount %d", &txcount) == 1) {
+		} else if (sscanf(l, "cbrc %d", &cb_rc) == 1) {
+		} else if (strncmp(l, "syslog", 6) == 0) {
+			warnp_syslog(1);	/* (warnings go to syslog instead of stderr: a property of the process, not of the request) */
 		} else if (sscanf(l, "early %d", &early) == 1) {
 		} else if (sscanf(l, "cancel %d", &cancel_after) == 1) {
 		} else if (strncmp(l, "fail ", 5) == 0) {
@@ -306,7 +314,8 @@ run_child(void)
 			for (i = 0; i < 400000 && ncb == 0; i++) {
 				vt_begin("run_call"); vt_end();
 				k = events_run();
-				vt_begin("run_ret"); vt_int("rc", k); common(); vt_end();
+				vt_begin("run_ret"); vt_int("rc", k); vt_int("cbrc", cb_returned); common(); vt_end();
+				cb_returned = 0;
 				if (k != 0)
 					break;		/* the loop reported a fatal error (allocation failure): the request is gone */
 			}
